@@ -173,10 +173,17 @@ Record gstate := mkG { g_ds : dstore; g_mem : rules }.
 Inductive rule := RPeer (p : Z) | RAddr (a : ip) | RSubnet (s : snet).
 Inductive op := Block (r : rule) | Unblock (r : rule).
 
-(* the key under which IPNet.String() files a subnet; a subnet for which
+(* the text IPNet.String() prints for a subnet; a subnet for which
    String() prints "<nil>" is outside the model (decoded as malformed) *)
 Definition skey_of (s : snet) : skey :=
   match snet_key s with Some k => k | None => (K4 0, 0) end.
+
+(* canonicalSubnet (conngater.go): n = ParseCIDR(ipnet.String()); the rule is
+   filed under n.String() — host bits cleared, natural mask length — and the
+   in-memory value is n, exactly what loadRules rebuilds after a restart *)
+Definition canon_key (k : skey) : skey := skey_of (parse_cidr k).
+Definition ckey (s : snet) : skey := canon_key (skey_of s).
+Definition cnet (s : snet) : snet := parse_cidr (skey_of s).
 
 (* first half of every Block*/Unblock*: the datastore write *)
 Definition ds_write (o : op) (d : dstore) : dstore :=
@@ -186,9 +193,9 @@ Definition ds_write (o : op) (d : dstore) : dstore :=
   | Block (RAddr a) => mkDs (d_peers d) (a_put akey_eqb (ipkey a) a (d_addrs d)) (d_subnets d)
   | Unblock (RAddr a) => mkDs (d_peers d) (a_del akey_eqb (ipkey a) (d_addrs d)) (d_subnets d)
   | Block (RSubnet s) =>
-      mkDs (d_peers d) (d_addrs d) (a_put skey_eqb (skey_of s) (skey_of s) (d_subnets d))
+      mkDs (d_peers d) (d_addrs d) (a_put skey_eqb (ckey s) (ckey s) (d_subnets d))
   | Unblock (RSubnet s) =>
-      mkDs (d_peers d) (d_addrs d) (a_del skey_eqb (skey_of s) (d_subnets d))
+      mkDs (d_peers d) (d_addrs d) (a_del skey_eqb (ckey s) (d_subnets d))
   end.
 
 (* second half: the in-memory update under the lock *)
@@ -199,9 +206,9 @@ Definition mem_update (o : op) (m : rules) : rules :=
   | Block (RAddr a) => mkRules (r_peers m) (s_add akey_eqb (ipkey a) (r_addrs m)) (r_subnets m)
   | Unblock (RAddr a) => mkRules (r_peers m) (s_del akey_eqb (ipkey a) (r_addrs m)) (r_subnets m)
   | Block (RSubnet s) =>
-      mkRules (r_peers m) (r_addrs m) (a_put skey_eqb (skey_of s) s (r_subnets m))
+      mkRules (r_peers m) (r_addrs m) (a_put skey_eqb (ckey s) (cnet s) (r_subnets m))
   | Unblock (RSubnet s) =>
-      mkRules (r_peers m) (r_addrs m) (a_del skey_eqb (skey_of s) (r_subnets m))
+      mkRules (r_peers m) (r_addrs m) (a_del skey_eqb (ckey s) (r_subnets m))
   end.
 
 (* loadRules: three prefix queries; peers from the raw value, addresses
